@@ -224,6 +224,19 @@ def run(ctx):
             if not close(got, t):
                 violations.append(Violation("RTD: scale(voltage of Callendar-Van Dusen at T=%r, %d-wire) = %r" % (t, cfg, got),
                                             dict(kind="rtd", params=[cur, r0, a, b, c, lead, cfg], T=t, V=v, got=got)))
+            if counts["rtd"] % 4 == 0:
+                # another RTD with slightly different coefficients measuring the SAME resistance (same voltage, current and leads):
+                # its answer must satisfy ITS OWN Callendar-Van Dusen equation (nothing may be remembered from the first scaling)
+                a2, b2, c2 = a * rnd.choice([0.97, 1.03]), b * rnd.choice([0.97, 1.03]), c * rnd.choice([0.9, 1.1])
+                try:
+                    got2 = float(sc.RtdScaling(cur, r0, a2, b2, c2, lead, cfg, RAW).scale(np.array([v]))[0])
+                except Exception:  # noqa: slightly outside the modified curve's range
+                    got2 = None
+                if got2 is not None and np.isfinite(got2):
+                    resid = cvd(r0, a2, b2, c2, got2) - (v / cur - leadterm)
+                    if abs(resid) > 1e-6 * r0:
+                        violations.append(Violation("RTD with coefficients %r on the resistance of T=%r returns %r, which does not satisfy its own Callendar-Van Dusen equation (residual %r ohm)" % (
+                            [a2, b2, c2], t, got2, resid), dict(kind="rtd-pair", params=[cur, r0, a, b, c, lead, cfg], second=[a2, b2, c2], V=v, got=got2)))
             if ev is not None and counts["rtd"] % 10 == 0:
                 i_, l_, v_ = dy(rnd, 0.0005, 0.01, 14), dy(rnd, 0, 8), dy(rnd, 0.01, 5)
                 m = unfr(ev.ask("rtdres %s %s %d %s" % (fr(i_), fr(l_), cfg, fr(v_))))
